@@ -194,10 +194,34 @@ def body_getblock(text: str, blk: int) -> bool:
     return True
 
 
-def body_http_headers(kind: int, tail: str, outcome: int, head: bool) -> bool:
-    """HTTP(S)/WAP header block for a request whose path carries a symbolic tail: the status line and
-    every header line are server-chosen (fixed names; values are literals, a date tag or the entry's
-    MIME type) -- never request text, never more than one line."""
+FILLERS = [0, 40, 70, 76, 77, 78, 79, 120, 250]
+
+
+def body_getblock_long(fi: int, text: str, blk: int) -> bool:
+    """The same for long lines: a content line of any length (a filler of words up to 250 characters
+    followed by symbolic text) is still one blank-prefixed line, whatever its words look like."""
+    cfg = hx.DictConfig(True)
+    name = ["ABSTRACT", "KEYWORDS", "ASK", "3D"][blk]
+    pr = rl.proto(1, cfg)
+    n = FILLERS[fi]
+    filler = ("word " * 60)[:n]
+    full = "first" + chr(10) + filler + text
+    e = rl.entry(cfg, "0", "n", "/x", mimetype="text/plain", ea={name: full})
+    out = pr.getblock("+" + name, e)
+    hx.reach()
+    lines = out.split("\r\n")
+    hx.require(lines[0] == "+" + name + ":" and out.endswith("\r\n"), "C13:gopherplus-block-header", lambda: repr(out))
+    for l in lines[1:-1]:
+        hx.require(l.startswith(" "), "C13:gopherplus-content-line-without-leading-blank", lambda: "filler=%d text=%r block=%r" % (n, text, out))
+    # C15: the block's lines are exactly the attribute's lines
+    hx.require([l[1:] for l in lines[1:-1]] == full.splitlines(), "C15:block-lines-differ-from-attribute-lines", lambda: "filler=%d text=%r block=%r" % (n, text, out))
+    return True
+
+
+def body_http_headers(kind: int, tail: str, outcome: int, head: bool, hk: int = 0) -> bool:
+    """HTTP(S)/WAP header block for a request whose path and request headers carry client text (each
+    piece tagged with the marker ZQ7 plus a symbolic tail): the status line and every header line are
+    server-chosen -- well-formed `Name: value` lines that contain no client text and no stray CR."""
     import urllib.parse
 
     from pygopherd import GopherExceptions
@@ -232,14 +256,21 @@ def body_http_headers(kind: int, tail: str, outcome: int, head: bool) -> bool:
             raise GopherExceptions.FileNotFound(selector, "no handler found", protocol)
         return H(selector)
 
+    # client request headers: a conditional-GET date that lies in the future (so that a server that
+    # honours it answers from the header), a range, the usual identification headers
+    hdrs = [[],
+            ["If-Modified-Since: Sat, 01 Jan 2050 00:00:00 GMT ZQ7" + tail],
+            ["Host: ZQ7" + tail, "User-Agent: ZQ7ua", "Referer: ZQ7ref"],
+            ["If-None-Match: ZQ7" + tail, "Range: bytes=0-ZQ7", "Accept: ZQ7acc", "Cookie: ZQ7=c", "Origin: ZQ7o"]][hk]
     urllib.parse.unquote = unquote
     HM.getHandler = getHandler
-    http.time = hx.ns(gmtime=lambda t: t, strftime=lambda fmt, g: "DATETAG")
+    http.time = hx.ns(gmtime=lambda t: t, strftime=lambda fmt, g: "DATETAG", time=lambda: 4102444800.0, mktime=lambda t: 0)
     w = hx.ListWriter()
     try:
-        req = ("HEAD " if head else "GET ") + ("/wap" if kind == 3 else "") + "/x" + tail + " HTTP/1.0"
+        req = ("HEAD " if head else "GET ") + ("/wap" if kind == 3 else "") + "/xZQ7" + tail + " HTTP/1.0"
         p = rl.proto(kind, cfg, selector="/x", wfile=w)
         p.request = req
+        p.rfile = hx.LineReader([h + chr(13) + chr(10) for h in hdrs] + [chr(13) + chr(10)])
         p.canhandlerequest()
         p.handle()
     finally:
@@ -249,12 +280,14 @@ def body_http_headers(kind: int, tail: str, outcome: int, head: bool) -> bool:
     i = out.find("\r\n\r\n")
     hx.require(i > 0, "C13:http-header-block-unterminated", lambda: repr(out[:200]))
     block = out[:i]
-    hx.require("REQTEXT" not in block, "C13:request-text-in-http-header", lambda: repr(block))
+    hx.require("REQTEXT" not in block and "ZQ7" not in block, "C13:request-text-in-http-header", lambda: repr(block))
     lines = block.split("\r\n")
-    hx.require(lines[0] in ("HTTP/1.0 200 OK", "HTTP/1.0 404 Not Found", "HTTP/1.0 200 Not Found"), "C13:http-status-line-not-server-chosen", lambda: repr(lines[0]))
+    st = lines[0]
+    hx.require(st.startswith("HTTP/1.0 ") and len(st) > 13 and st[9:12].isdigit() and st[12] == " " and all(c.isalpha() or c == " " for c in st[13:]),
+               "C13:http-status-line-malformed", lambda: repr(st))
     for l in lines[1:]:
-        hx.require(l in ("Last-Modified: DATETAG", "Content-Type: text/plain", "Content-Type: image/gif", "Content-Type: text/html", "Content-Type: text/vnd.wap.wml"),
-                   "C13:http-header-not-server-chosen", lambda: repr(l))
+        j = l.find(": ")
+        hx.require(j > 0 and all(c.isalpha() or c == "-" for c in l[:j]) and chr(13) not in l and chr(10) not in l, "C13:http-header-line-malformed", lambda: repr(l))
     return True
 
 
@@ -324,10 +357,12 @@ def obligations(tier, seed):
                   timeout=300 if tier == "quick" else 1200, desc="WAP text-to-WML conversion of two symbolic lines: no payload-controlled markup",
                   bounds="2 lines, |l| <= 2 over {< > & \" SPACE a}", functions=["protocols.wap.WAPProtocol.handlerwrite"]))
     for kind in (2, 3):
-        obs.append(Ob(id="C13.2-http-headers[%s]" % dl.PROTO_NAMES[kind], body="harness.C13:body_http_headers", sig="kind: int, tail: str, outcome: int, head: bool",
-                      pre=["kind == %d" % kind, "len(tail) <= 2", "all(c in 'a%0D:' for c in tail)", "0 <= outcome <= 3"], timeout=300,
-                      desc="%s header block for a request path with a symbolic tail (found / not found, HEAD / GET): status line and header lines are from a fixed server-chosen set; no request text" % dl.PROTO_NAMES[kind],
-                      bounds="|tail| <= 2 over {a % 0 D :}; 4 outcomes x HEAD/GET (symbolic)", functions=["protocols.http.HTTPProtocol.handle/filenotfound", "protocols.wap.WAPProtocol.filenotfound/adjustmimetype"]))
+        for hk in range(4):
+            obs.append(Ob(id="C13.2-http-headers[%s,%s]" % (dl.PROTO_NAMES[kind], ["no-headers", "if-modified-since", "host-agent-referer", "match-range-accept-cookie-origin"][hk]), body="harness.C13:body_http_headers",
+                          sig="kind: int, tail: str, outcome: int, head: bool, hk: int",
+                          pre=["kind == %d" % kind, "hk == %d" % hk, "len(tail) <= 2", "all(c in 'a%:' + chr(13) for c in tail)", "0 <= outcome <= 3"], timeout=400,
+                          desc="%s header block for a request whose path and request headers (set %d of: none / If-Modified-Since with a future date / Host, User-Agent, Referer / If-None-Match, Range, Accept, Cookie, Origin) carry marked client text with a symbolic tail (found / not found, HEAD / GET): well-formed status and header lines, no client text in them" % (dl.PROTO_NAMES[kind], hk),
+                          bounds="|tail| <= 2 over {a % : CR}; 4 outcomes x HEAD/GET (symbolic)", functions=["protocols.http.HTTPProtocol.handle/headerslurp/filenotfound", "protocols.wap.WAPProtocol.filenotfound/adjustmimetype"]))
     obs.append(Ob(id="C13.5b-html-title", body="harness.C13:body_title", sig="ti: int, sep: int", pre=["0 <= ti < %d" % len(TITLES), "0 <= sep <= 1"], timeout=300,
                   desc="HTML <title> text used as an entry name contains no CR/LF/TAB, for titles with few and with many whitespace runs (which would forge Gopher+ block headers / menu lines)",
                   bounds="%d titles x LF/CRLF files (symbolic index = solver-driven enumeration)" % len(TITLES), functions=["handlers.html.HTMLFileTitleHandler.getentry"]))
@@ -339,4 +374,8 @@ def obligations(tier, seed):
                       pre=["blk == %d" % blk, "len(text) <= %d" % (3 if tier == "quick" else 4), "all(c in '+: a' + chr(13) + chr(10) for c in text)"], timeout=300 if tier == "quick" else 1200,
                       desc="Gopher+ getblock on symbolic attribute text: every content line starts with a blank, no bare CR/LF inside a line",
                       bounds="|text| <= %d over {+ : SPACE a CR LF}" % (3 if tier == "quick" else 4), functions=["protocols.gopherp.GopherPlusProtocol.getblock"]))
+    obs.append(Ob(id="C13.4b-getblock-long-lines", body="harness.C13:body_getblock_long", sig="fi: int, text: str, blk: int",
+                  pre=["0 <= fi < %d" % len(FILLERS), "len(text) <= 2", "all(c in '+: a' for c in text)", "0 <= blk <= 1"], timeout=300,
+                  desc="Gopher+ getblock on a long content line (filler of %r characters + symbolic text): still exactly one blank-prefixed line per attribute line, whatever its length" % (FILLERS,),
+                  bounds="9 line lengths around the 78/80-column marks and beyond, |text| <= 2 over {+ : SPACE a} (symbolic)", functions=["protocols.gopherp.GopherPlusProtocol.getblock"]))
     return obs
